@@ -35,6 +35,8 @@ def run(rep):
             d["intrep"] = True
             extra.append(d)
     allc = cases + extra
+    for c in allc:
+        c["again"] = True       # every call is made twice, the first result modified in between (spec: C16!Verdict, clause Again)
     # thorough: seeded random longer receivers with argument values drawn from the enumerated grid (spec-level JSON;
     # the judge re-checks Supported and skips what lies outside the specified fragment)
     nrandom = 0
@@ -95,7 +97,7 @@ def run(rep):
 def normal(out):
     """keep only what the judge reads; map non-value outcomes to a record the spec can compare"""
     if out["o"] == "value":
-        return {"o": "value", "v": out["v"], "recv_after": out["recv_after"]}
+        return {"o": "value", "v": out["v"], "recv_after": out["recv_after"], "v2": out.get("v2", out["v"])}
     if out["o"] == "throw":
         return {"o": "throw", "cls": out["cls"]}
     return {"o": out["o"], "cls": out.get("type", out["o"]) + "@" + out.get("where", "")}
